@@ -100,6 +100,45 @@ impl<R> Drop for NotifyOnDrop<R> {
     }
 }
 
+/// Reader for a chunked body that reads and discards whatever is left of the body when it is
+/// dropped, so that the next request on the connection is parsed from the first byte after
+/// the body (what `EqualReader` does for bodies with a `Content-Length`).
+struct DrainOnDrop<R: Read> {
+    inner: R,
+    // true once the end of the body (or an error) has been seen
+    done: bool,
+}
+
+impl<R: Read> DrainOnDrop<R> {
+    fn new(inner: R) -> Self {
+        DrainOnDrop { inner, done: false }
+    }
+}
+
+impl<R: Read> Read for DrainOnDrop<R> {
+    fn read(&mut self, buf: &mut [u8]) -> io::Result<usize> {
+        if self.done || buf.is_empty() {
+            return Ok(0);
+        }
+        let res = self.inner.read(buf);
+        if let Ok(0) | Err(_) = res {
+            self.done = true;
+        }
+        res
+    }
+}
+
+impl<R: Read> Drop for DrainOnDrop<R> {
+    fn drop(&mut self) {
+        let mut buf = [0u8; 1024];
+        while !self.done {
+            if let Ok(0) | Err(_) = self.inner.read(&mut buf) {
+                self.done = true;
+            }
+        }
+    }
+}
+
 /// Error that can happen when building a `Request` object.
 #[derive(Debug)]
 pub enum RequestCreationError {
@@ -218,7 +257,8 @@ where
     } else if transfer_encoding.is_some() {
         // if a transfer-encoding was specified, then "chunked" is ALWAYS applied
         // over the message (RFC2616 #3.6)
-        Box::new(FusedReader::new(Decoder::new(source_data))) as Box<dyn Read + Send + 'static>
+        Box::new(FusedReader::new(DrainOnDrop::new(Decoder::new(source_data))))
+            as Box<dyn Read + Send + 'static>
     } else {
         // if we have neither a Content-Length nor a Transfer-Encoding,
         // assuming that we have no data
